@@ -384,6 +384,8 @@ func checkRecogniserTotality(r *Run, tp, op, cp, fe *packages.Package, cg *CallG
 					covered = append(covered, f.Name())
 				} else if _, ok := r.InTable(exempt, "c01_exempt", exemptKey(members, f.Name())); ok {
 					covered = append(covered, f.Name()+"(table)")
+				} else if semanticRecogniserExemption(r, exempt, nt.Obj().Name(), f.Name(), reads, members) {
+					covered = append(covered, f.Name()+"(table: model fact)")
 				} else {
 					missing = append(missing, f.Name())
 				}
@@ -910,4 +912,36 @@ func checkRecogniserSymbolPairs(r *Run, cg *CallGraph, recs []*types.Func) {
 		}
 	}
 	r.Note("%s: %d symbol pairs examined", rule, n)
+}
+
+// semanticRecogniserExemption looks an unexamined field up under keys that speak about the model type rather than about
+// the recogniser's private function and variable names:
+//
+//	model-union:<Type>.<Field>|reads:<Other>   exactly one of the two fields is set by the parser; usable when the
+//	                                            binding looks at <Other>
+//	single-node:<Type>.<Field>                  the flag means nothing for a pattern that is a single node; usable when a
+//	                                            member of the class is the parameter of a function that maps a pattern
+//	                                            part to (its only node pattern, bool)
+func semanticRecogniserExemption(r *Run, exempt Table, typeName, field string, reads map[string]bool, members []*recBinding) bool {
+	for key := range exempt {
+		prefix := "model-union:" + typeName + "." + field + "|reads:"
+		if strings.HasPrefix(key, prefix) && reads[strings.TrimPrefix(key, prefix)] {
+			_, ok := r.InTable(exempt, "c01_exempt", key)
+			return ok
+		}
+	}
+	if _, has := exempt["single-node:"+typeName+"."+field]; has {
+		for _, m := range members {
+			sig := m.fn.Type().(*types.Signature)
+			if sig.Params().Len() == 1 && sig.Params().At(0) == m.obj && sig.Results().Len() == 2 {
+				if namedName(sig.Results().At(0).Type()) == "NodePattern" {
+					if b, ok := sig.Results().At(1).Type().Underlying().(*types.Basic); ok && b.Kind() == types.Bool {
+						_, ok := r.InTable(exempt, "c01_exempt", "single-node:"+typeName+"."+field)
+						return ok
+					}
+				}
+			}
+		}
+	}
+	return false
 }
